@@ -24,7 +24,7 @@ LABELS = {"l1": ["alice@example.org", "bob"], "l2": ["a b/c%d&e=f+g#h?i \xe9€@
 ISSUERS = {"i1": ["Example Corp", "acme"], "i2": ["is\xdf/ue%r&x=y+z", "a&b=c d", "/Acme", "%2Facme/", "?who#"]}
 OTHER_KEY = "JBSWY3DPEHPK3PXPJBSWY3DPEHPK3PXP"
 TIMES = [59, 1111111109, 20000000000]
-CORR = ["none", "no-type", "bad-type", "fragment-type", "no-version", "future-version", "no-key", "bad-scheme", "no-label", "issuer-conflict",
+CORR = ["none", "no-type", "bad-type", "fragment-type", "no-version", "future-version", "old-version", "not-an-object", "no-key", "bad-scheme", "no-label", "issuer-conflict",
         "dup-secret", "dup-issuer", "dup-digits", "dup-period", "dup-algorithm"]
 DUP = {"dup-secret": "secret", "dup-issuer": "issuer", "dup-digits": "digits", "dup-period": "period", "dup-algorithm": "algorithm"}
 
@@ -71,7 +71,9 @@ def corrupt_dict(d, cor):
     elif cor == "no-version":
         d.pop("v")
     elif cor == "future-version":
-        d["v"] = 99
+        d["v"] = random.choice([99, 2])
+    elif cor == "old-version":
+        d["v"] = random.choice([-1, 0, -7])
     elif cor == "no-key":
         d.pop("key", None)
         d.pop("enckey", None)
@@ -154,6 +156,8 @@ def run(chk):
             else:
                 d = corrupt_dict(obj.to_dict(), cor)
                 src = d if fmt == "dict" else json.dumps(d)
+                if cor == "not-an-object":
+                    src = random.choice(["null", "[]", "0", "true", '"totp"', json.dumps([d]), "3.5", '""'])
                 if fmt == "json" and cor == "none":
                     src = obj.to_json()
             detail["source"] = src
